@@ -270,3 +270,25 @@ def reference_docs():
         for f1, f2 in (("{n} at 12", "{n} at 127 S.Ct. 1955"), ("See {n} at 15.", "{n}, 410 U.S., at 120"), ("State v. {n} at 175", "{n} at 9, 2 F.2d 2 (2005)")):
             out.append(f"{fa}. {f1.format(n=na[0])}; {fb}. {f2.format(n=nb[0])} and {f1.format(n=na[-1])}, {f2.format(n=nb[-1])}.")
     return out
+
+
+def ambiguous_docs(db, today):
+    """documents around reporter strings that name several editions (read from reporters-db by the driver: db_strings):
+    an undated citation of such a string directly after / before a dated citation of something else whose year would
+    decide between the candidates, and the same with the string's own deciding year"""
+    out = []
+    for st in db["strings"]:
+        eds = list(st["editions"]) + list(st.get("others", []))
+        if len(eds) < 2:
+            continue
+        rng = {e: ((db["years"][e][0] or 1600), (db["years"][e][1] or today)) for e in eds}
+        for e in eds:
+            y = next((y for y in (rng[e][0], rng[e][1], (rng[e][0] + rng[e][1]) // 2)
+                      if 1600 <= y <= today and all(not (rng[o][0] <= y <= rng[o][1]) for o in eds if o != e)), None)
+            if y is None:
+                continue
+            S = st["string"]
+            out.append(f"See Kappa v. Lomax, 2 U.S. 5 ({y}); Mirren v. Noxon, 1 {S} 1, 4.")
+            out.append(f"Mirren v. Noxon, 1 {S} 1, 4; Kappa v. Lomax, 2 U.S. 5 ({y}). 1 {S} 1 ({y}).")
+            break
+    return out
